@@ -4,7 +4,9 @@ import Mkts.Model.FlushTie
 /-! Driver op for the write/flush rendez-vous (C07): coarse-grained directed schedules that the Go
 harness can force on the real code with the `verif` hooks:
 `W<w>` = writer w runs WriteCSM up to its blocking point (enqueue; request),
-`F`    = the flushChannel arm of SyncWAL once (take; finish), `T` = the timer arm once (timer; finish). -/
+`F`    = the flushChannel arm of SyncWAL once (take; finish), `T` = the timer arm once (timer; finish),
+`Ft`/`Tt` = the arm up to the point where the transaction group is in the WAL and handed to the
+replication sender (the harness parks it there with a blocking sender), `Ff`/`Tf` = the rest. -/
 namespace Mkts.Driver.FlushProto
 open Mkts.Proto Mkts.FlushProto Mkts.Skel
 
@@ -16,21 +18,70 @@ def showSt (s : St) : String :=
     (let d := (List.range s.writers.length).filter (fun w => s.durable.contains w)
      if d.isEmpty then "-" else ",".intercalate (d.map toString))
 
-def coarse (tok : String) : Option (List Step) :=
-  if tok == "F" then some [.take, .finish]
-  else if tok == "T" then some [.timer, .finish]
-  else if tok.startsWith "W" then (parseNat (tok.drop 1).toString).map (fun w => [.enqueue w, .request w])
+/-- an empty snapshot finishes at once (`FlushToWAL` returns before any I/O when nothing is queued) -/
+def autoFinish (early : Bool) (s : St) : Option St :=
+  match s.loop with
+  | .flushing [] _ => step early s .finish
+  | _ => some s
+
+/-- one token of a directed schedule; `none` = not enabled -/
+def tokStep (early : Bool) (s : St) (tok : String) : Option (Option St) :=
+  if tok == "F" then some (run early s [.take, .finish])
+  else if tok == "T" then some (run early s [.timer, .finish])
+  else if tok == "Ft" then some ((step early s .take).bind (autoFinish early))
+  else if tok == "Tt" then some ((step early s .timer).bind (autoFinish early))
+  else if tok == "Ff" || tok == "Tf" then some (step early s .finish)
+  else if tok.startsWith "W" then
+    (parseNat (tok.drop 1).toString).map (fun w => run early s [.enqueue w, .request w])
   else none
 
 def runCoarse (early : Bool) : St → List String → List String → List String
   | _, [], acc => acc.reverse
   | s, tok :: rest, acc =>
-    match coarse tok with
+    match tokStep early s tok with
     | none => (("bad-op") :: acc).reverse
-    | some sts =>
-      match run early s sts with
-      | none => runCoarse early s rest ("disabled" :: acc)
-      | some s' => runCoarse early s' rest (showSt s' :: acc)
+    | some none => runCoarse early s rest ("disabled" :: acc)
+    | some (some s') => runCoarse early s' rest (showSt s' :: acc)
+
+/-- the REAL writer loop with its timers out of reach: it takes a queued request as soon as it is
+idle; an empty snapshot is finished (and answered) at once, a non-empty one parks at the sender -/
+def settleLoop (early : Bool) : Nat → St → St
+  | 0, s => s
+  | fuel + 1, s =>
+    match s.loop, s.flushCh with
+    | .idle, _ :: _ =>
+      match (step early s .take).bind (autoFinish early) with
+      | some s' => settleLoop early fuel s'
+      | none => s
+    | _, _ => s
+
+def realTok (early : Bool) (s : St) (tok : String) : Option (Option St) :=
+  if tok == "Ff" then some ((step early s .finish).map (fun s' => settleLoop early (s'.flushCh.length + 1) s'))
+  else if tok.startsWith "W" then
+    (parseNat (tok.drop 1).toString).map (fun w =>
+      (run early s [.enqueue w, .request w]).map (fun s' => settleLoop early (s'.flushCh.length + 1) s'))
+  else none
+
+def runReal (early : Bool) : St → List String → List String → List String
+  | _, [], acc => acc.reverse
+  | s, tok :: rest, acc =>
+    match realTok early s tok with
+    | none => (("bad-op") :: acc).reverse
+    | some none => runReal early s rest ("disabled" :: acc)
+    | some (some s') => runReal early s' rest (showSt s' :: acc)
+
+/-- `flushreal <n> <tok> …` (tokens `W<w>`, `Ff`): the same protocol driven through the REAL
+`SyncWAL` goroutine (request arm); the harness only parks and releases the flush in progress. -/
+def flushrealOp : Op := fun args =>
+  match args with
+  | ns :: toks =>
+    match parseNat ns with
+    | some n =>
+      let m := " ".intercalate (runReal earlyInCode (init n) toks [])
+      let sp := " ".intercalate (runReal false (init n) toks [])
+      s!"M:{m}\tS:{sp}\tH:"
+    | none => "M:bad-op"
+  | _ => "M:bad-op"
 
 /-- `flushsched <n> <tok> <tok> …` → one `pcs/visible` token per step.  The spec (C07): the same
 trace as the protocol WITHOUT early return, in which every returned writer is visible. -/
@@ -49,5 +100,5 @@ def flushschedOp : Op := fun args =>
 each write followed by a read of the same row; the property demands every read sees its write. -/
 def flushstressOp : Op := fun _ => "M:ok\tS:ok\tH:"
 
-def ops : OpTable := [("flushsched", flushschedOp), ("flushstress", flushstressOp)]
+def ops : OpTable := [("flushsched", flushschedOp), ("flushreal", flushrealOp), ("flushstress", flushstressOp)]
 end Mkts.Driver.FlushProto
